@@ -1092,6 +1092,18 @@ func (e *Env) evalCall(n *Node) specVal {
 			// transmitted(m): message object m was handed to TransmitMessage during this call
 			x := e.eval(args[0])
 			return specVal{t: sel(v.heap(e.st, v.ghostKey("transmitted", "(Array Int Bool)")), x.t), typ: tBool}
+		case "hitend":
+			// hitend(r): some read on stream r was attempted at its end during this call (tracked only
+			// in units with `opt trackend`; false elsewhere)
+			x := e.eval(args[0])
+			if !v.trackEnd() {
+				return specVal{t: "false", typ: tBool}
+			}
+			return specVal{t: sel(v.heap(e.st, v.ghostKey("hitend", "(Array Int Bool)")), e.streamIDOf(x)), typ: tBool}
+		case "intact":
+			// intact(r): the script reader r has not run into a malformed item yet
+			x := e.eval(args[0])
+			return specVal{t: not(sel(v.heap(e.st, v.ghostKey("sdirty", "(Array Int Bool)")), x.t)), typ: tBool}
 		case "nseed":
 			return specVal{t: v.heap(e.st, v.ghostKey("nseed", "Int")), typ: tInt}
 		case "clock":
